@@ -40,7 +40,7 @@ PRI_CHEAP, PRI_CORE, PRI_EXT, PRI_SWEEP = 0, 1, 2, 3
 CHEAP_OPS = (OP_ADD, OP_SUB, OP_CHK, OP_RT)
 # plain-build milliseconds of multiplication work per (configuration, built-in curve); case counts
 # follow from this through a fixed cost model (no clock is read)
-BUDGET_MS = {"quick": 400.0, "thorough": 1000.0}
+BUDGET_MS = {"quick": 400.0, "thorough": 600.0}
 MIN_MULT_CASES = 4
 LOAD_LIMIT_MS = {"quick": 6000.0, "thorough": 20000.0}
 CRASH_LIMIT = 3           # crashes per (job, build, entry point, behaviour class) before the class is no longer fed
@@ -127,19 +127,33 @@ def thorough_configs(seed):
             seen.add(k)
             out.append(c)
 
-    bases = [dict(), dict(proj=True), dict(proj=True, mix=True, rd=True)]
-    for b in bases:
-        # single-axis variations of the header default (COMB_2T w8 / COMB_1T w2 / JOINT / 64-bit)
+    # single-axis variations of the header default (COMB_2T w8 / COMB_1T w2 / JOINT / 64-bit digits)
+    # in both coordinate systems: affine and Jacobian (with mixed addition + repeated doubling, as the
+    # repository's own test selects); plain Jacobian gets the algorithm axis without the window axis
+    bases = [dict(), dict(proj=True, mix=True, rd=True)]
+    for bi, b in enumerate(bases):
         for a in FXP:
             for w in sane_windows(a):
                 add(mkcfg(fxp=a, fxpw=w, **b))
         for a in UNK:
-            ws = [None] if a in ("BIN", "BIN_PRECALC_DBL", "SAME_AS_FXP") else [w for w in sane_windows(a) if w <= 8]
+            if a in ("BIN", "BIN_PRECALC_DBL", "SAME_AS_FXP"):
+                ws = [None]
+            else:
+                ws = [w for w in sane_windows(a) if w <= 8]
+                if (a == "COMB_2T") == (bi == 0):
+                    ws = [w for w in ws if w in (1, 4, 8)]      # the other base takes the full window list
             for w in ws:
                 add(mkcfg(unk=a, unkw=w, **b))
         for t in TWIN:
             add(mkcfg(twin=t, **b))
         add(mkcfg(twin="FXP_UNKPT", fxp="BIN", unk="BIN", **b))
+    b = dict(proj=True)
+    for a in FXP:
+        add(mkcfg(fxp=a, **b))
+    for a in UNK:
+        add(mkcfg(unk=a, **b))
+    for t in TWIN:
+        add(mkcfg(twin=t, **b))
     add(mkcfg(proj=True, mix=True))
     add(mkcfg(proj=True, rd=True))
     # unknown-point window larger than the fixed-point window
@@ -1151,7 +1165,7 @@ def run(tier):
     for i, cfg in enumerate(cfgs):
         specs.append((cfg["name"] + "/plain", build_kwargs(cfg, "plain")))
         specs.append((cfg["name"] + "/asu", build_kwargs(cfg, "asu")))
-        if tier == "thorough" and i % 8 == 0:
+        if tier == "thorough" and i % 12 == 0:
             specs.append((cfg["name"] + "/msan", build_kwargs(cfg, "msan")))
     built = common.try_builds(report, specs)
     _CFGS, _EXES, _INFOS = [], {}, {}
